@@ -217,9 +217,12 @@ func compile0(expr ast.Expr, env1 *val.Env, dbg bool) compiler.Closure {
 	case *ast.MemberExpr:
 		// 也可以 desugar 成 build-in-fun
 		obj := compile(e.Obj, env1, dbg)
-		idx := e.Index
+		// 对象类型相等不区分字段顺序, 运行时对象的字段位置以自身类型为准, 所以按名字取
+		name := e.Field.Name
 		return func(env *val.Env) *val.Val {
-			return obj(env).Obj().V[idx]
+			v, ok := obj(env).Obj().Get(name)
+			util.Assert(ok, "undefined field %s", name)
+			return v
 		}
 
 	//case *ast.IfExpr:
